@@ -32,12 +32,25 @@ def predict_zid_line(line: str, zid: str) -> Optional[str]:
     if p is None:
         return None
     words = p["rest"].split(" ")
-    if words and _LONG.match(words[0]):
+    if words and _is_calendar_long_date(words[0]):
         words = words[1:]
         while words and words[0] == "":
             words.pop(0)
     pre = p["kind"] + (f" {p['prio']}" if p["prio"] else "")
     return f"{pre} {zid} {' '.join(words)}"
+
+
+def _is_calendar_long_date(word: str) -> bool:
+    """YYYY-MM-DD that names a day of the calendar (2024-19-39 is just a word)."""
+    if not _LONG.match(word.rstrip("\r")):
+        return False
+    import datetime
+
+    try:
+        datetime.date.fromisoformat(word.rstrip("\r"))
+    except ValueError:
+        return False
+    return True
 
 
 def predict_stamp_line(line: str, today_short: str) -> Optional[str]:
